@@ -16,7 +16,7 @@ def single_val(outs):
 
 def lookup_form(ctx, config, U, path, key_fn, label):
     """`iter ▸ find(|unit| key_fn(unit) == arg)` over the type's own iterator."""
-    outs, b, ev = G.summarize(U, path, set())
+    outs, b, ev = G.summarize(U, path, {"*"}, stop=G.STOP_LOOKUP)
     t = single_val(outs)
     inst = "%s/%s" % (config, label)
     ok = False
